@@ -8,7 +8,7 @@ raise a violation. /repo is restored after every mutant (git checkout -- .).
 import json, os, subprocess, sys, time
 
 VERIF = os.path.dirname(os.path.dirname(os.path.abspath(__file__)))
-REPO = "/repo"
+REPO = os.environ.get("VERIF_REPO", "/repo")
 ENV = dict(os.environ, GOPROXY="off", GOSUMDB="off", GOTOOLCHAIN="local")
 
 MUTANTS = json.load(open(os.path.join(VERIF, "tools", "mutants.json")))
